@@ -74,7 +74,7 @@ def fuzz_leg(res, d, files, runs=None):
     import re
     import struct
     fz = {}
-    for name, total in (('fz_codec', runs or 48000000), ('fz_file', (runs or 4800000) // (1 if runs is None else 10) or 1000)):
+    for name, total in (('fz_codec', runs or 16000000), ('fz_file', (runs or 3200000) // (1 if runs is None else 10) or 1000)):
         exe = common.hbuild(name, [name + '.cpp'], 'fuzz')
         seeds = os.path.join(d, name + '.seeds')
         os.makedirs(seeds, exist_ok=True)
@@ -125,6 +125,6 @@ def fuzz_leg(res, d, files, runs=None):
                         shutil.copy(arts[0], keep)
                     i0 = max(err.find('ERROR:'), err.find('runtime error'), err.find('VERIF-ORACLE'), 0)
                     res.violation('%s:%s' % (name, key or 'exit-%d' % rc), err[i0:i0 + 2500], dict(artifact=keep))
-        fz[name] = dict(executions=execs, max_edge_coverage=cov, crashing_processes=crashes, runs_per_process=per)
+        fz[name] = dict(executions=execs, new_corpus_units_found=cov, crashing_processes=crashes, runs_per_process=per)
         res.evaluations += execs
     res.extra['libfuzzer'] = fz
